@@ -25,6 +25,7 @@ pub mod c17;
 pub mod c18;
 pub mod c19;
 pub mod cli;
+pub mod md;
 
 pub struct Ctx<'a> {
     pub rep: &'a mut Report,
@@ -64,6 +65,8 @@ pub trait DetectProp {
     fn directed(&self, _thorough: bool) -> Vec<Case> {
         vec![]
     }
+    /// further correspondence slices of this property (components below `from_bytes`)
+    fn extra(&self, _rep: &mut Report, _drv: &mut Driver, _rng: &mut Rng, _thorough: bool) {}
 }
 
 pub fn sorted_join(mut v: Vec<String>) -> String {
@@ -129,6 +132,8 @@ pub fn run_detect_prop(p: &dyn DetectProp, thorough: bool, seed: u64, replay: Op
         let case = p.gen(&mut r, &corpus, i);
         run_case(p, &mut cx, &case);
     }
+    let mut r = rng.fork();
+    p.extra(&mut rep, &mut drv, &mut r, thorough);
     rep
 }
 
